@@ -561,7 +561,7 @@ def run_job(job, acc):
         flags = {'divcopy': any(o[0] == 'div' for o in history),
                  'busy_move': any(o[0] in ('mov', 'movupd')
                                   for o in history) and (
-                     3 in ts_pair or issuer == 'process')}
+                     max(ts_pair) > 1 or issuer == 'process')}
     elif kind == 'fault':
         _, procs, n_ticks, par, who, j = job
         spec, names = sched_world(procs, n_ticks)
